@@ -1330,6 +1330,23 @@ def c05_r7_savepoint_symmetry(ctx):
                     if d.endswith('created_persistent'):
                         src = True
             ctx.check(src, 'flow|%s|created' % f.path, 'apply_on_abort releases exactly the savepoints created in this transaction (mem::take(created_persistent))', f, p.line)
+    f = ctx.fn('SavepointTransactionState::apply_on_abort')
+    if f is not None:
+        dl = f.calls_to(TT + '::deallocate_savepoint')
+        nxt = [c for c in f.calls if c.matches('Iterator::next')]
+        e_none = core.guard_edges(f, [Guard(call='Iterator::next', vals={'None'})])
+        for n_ in nxt:
+            r = core.reach(f, start=(n_.bb, len(f.blocks[n_.bb]['s']) - 1), cut_edges=e_none, cut_blocks={c.bb for c in dl})
+            again = [m_ for m_ in nxt if m_.bb in r['term'] and m_.bb != n_.bb] or (n_.bb in {tb for (bb_, si_) in r['edges'] for tb in [f.succ(bb_)[si_][0]]} and False)
+            # the loop may not advance (reach its own next() again) or finish without releasing the entry
+            looped = False
+            for (bb_, si_) in r['edges']:
+                if f.succ(bb_)[si_][0] == n_.bb:
+                    looped = True
+            fin = any(rb in r['term'] for rb in f.ret_blocks())
+            ctx._ob(not (looped or fin or again), ctx.sample('must-pass', f, n_.line, 'every savepoint created in the aborted transaction is released'))
+            if looped or fin or again:
+                ctx.violate('must-pass|%s|created-skipped' % f.path, 'a persistent savepoint created in the aborted transaction can be skipped by apply_on_abort: its tracker registration (and read pin) would never be released', f, n_.line)
     f = ctx.fn('SavepointTransactionState::apply_on_commit')
     if f is not None:
         a = ctx.sites(f, TT + '::deallocate_savepoint', exact=1)
@@ -1832,6 +1849,11 @@ def c06_r6_restore(ctx):
         ctx.must_pass(f, [x], what='every successful restore passes %s' % x.desc)
     for p in ua:
         ctx.flows(f, p, 1, from_call='Savepoint::get_transaction_id')
+        # `unpersisted_allocations_after` is exclusive ("strictly after"): it takes the savepoint's own
+        # transaction id, not the inclusive `.next()` bound used for the two table ranges
+        _l, calls_, _a, _k = core.flow_sources(f, p.call.t['a'][1])
+        bad_ = [bb for bb in calls_ if core.CallSite(f, bb, f.blocks[bb]['t']).matches(('TransactionId::next', 'TransactionId::new'))]
+        ctx.check(not bad_, 'flow|%s|exclusive-bound' % f.path, 'unpersisted_allocations_after receives the savepoint transaction id itself (it is exclusive), not an id advanced by next()', f, p.line)
     opens = ctx.sites(f, 'SystemNamespace::open_system_table', exact=2)
     names = set()
     for p in opens:
@@ -3222,3 +3244,48 @@ def retained_checksum_rules(ctx):
                 if any(f.local_name(l) == 'deletion_result' for l in ls) or any(f.local_name(l) == 'checksum' for l in ls):
                     okk = True
         ctx.check(okk, 'flow|%s|checksum' % f.path, 'one BtreeHeader::new in finish_deletion takes its checksum from the deletion result (the DeletedBranch arm)', f, f.line)
+
+
+# ------------------------------------------------------------------------------------ allocation tracker states (C06/C07)
+def tracker_state_rules(ctx):
+    ctx.set_rule('C06.R5b', 'allocation tracking is switched off only by disable(): who constructs the Ignore / Closed / Track states of the page tracker')
+    by_variant = {}
+    for f in ctx.facts.fn_list:
+        for i, b in enumerate(f.blocks):
+            for j, st in enumerate(b['s']):
+                if st[0] == 'a' and st[2]['k'] == 'agg' and st[2]['a'].endswith('base::PageTrackerPolicy'):
+                    by_variant.setdefault(st[2]['v'], {}).setdefault(ctx.facts.root_of(f).path, []).append((f, st[3]))
+    table = {
+        'Ignore': {'PageTracker::ignore', 'PageTracker::disable'},
+        'Closed': {'PageTracker::closed', 'PageTrackerPolicy::close'},
+        'Track': {'PageTrackerPolicy::new_tracking', 'PageTrackerPolicy::reset'},
+    }
+    for variant, exp in table.items():
+        got = by_variant.get(variant, {})
+        matched = set()
+        for path, sites in sorted(got.items()):
+            hit = [e for e in exp if core.name_matches(e, core.alt_names(path))]
+            ctx._ob(bool(hit), ctx.sample('constructor', sites[0][0], sites[0][1], '%s constructs PageTrackerPolicy::%s' % (path, variant)))
+            matched.update(hit)
+            if not hit:
+                ctx.violate('new-constructor|PageTrackerPolicy::%s|%s' % (variant, path), '`%s` puts the page tracker into the `%s` state (confirmed: %s) -- %s' % (path, variant, sorted(exp), 'tracking would be silently off for the rest of the transaction' if variant == 'Ignore' else 'confirm'), sites[0][0], sites[0][1])
+        for e in exp:
+            ctx.check(e in matched, 'lost-constructor|PageTrackerPolicy::%s|%s' % (variant, e), 'confirmed constructor %s of PageTrackerPolicy::%s still exists' % (e, variant))
+    # the relaxed `tracking` flag is cleared only by disable() / the ignore() constructor
+    own = {}
+    for f in ctx.facts.fn_list:
+        S_ = core.sym(f)
+        for c in f.calls_to('Atomic::store'):
+            d = S_.describe(S_.operand(c.t['a'][0])) if c.t['a'] else ''
+            if d.endswith('.tracking'):
+                a = c.t['a'][1]
+                own.setdefault((ctx.facts.root_of(f).path, a[2] if a[0] == 'k' else None), c)
+    for (path, val), c in sorted(own.items(), key=lambda x: str(x[0])):
+        if val is False:
+            ctx.check(core.name_matches('PageTracker::disable', core.alt_names(path)), 'tracking-cleared|%s' % path, 'PageTracker.tracking is cleared only in disable() (found in %s)' % path, c.fn, c.line)
+    f = ctx.fn('PageTracker::disable')
+    if f is not None:
+        ctx.atomic_sites(f, 'store', 'self.tracking', exact=1, value=False)
+    f = ctx.fn('PageTracker::reset')
+    if f is not None:
+        ctx.must_pass(f, ctx.sites(f, 'PageTrackerPolicy::reset', exact=1), exits='any')
